@@ -147,6 +147,41 @@ func (h *hist16) decodeW(vals []any, cut bool, kw int) error {
 	return nil
 }
 
+func (h *hist16) decodeSibling(own, other string) error {
+	t2, err := refcol.Parse(strings.ReplaceAll(h.col.T.Name, own, other))
+	if err != nil {
+		return fmt.Errorf("harness: %v", err)
+	}
+	var w refwire.W
+	refcol.EncodeBlockBody(&w, h.rev, refwire.BlockInfo{BucketNum: -1}, len(h.dec[0]), []refcol.BlockCol{{Name: "col", Type: t2, Vals: h.dec[0]}})
+	fresh := h.e.New()
+	var rows [2][]any
+	var types [2]proto.ColumnType
+	for i, col := range []proto.Column{h.col.C, fresh} {
+		var blk proto.Block
+		if err := blk.DecodeBlock(proto.NewReader(bytes.NewReader(w.B)), h.rev, proto.Results{{Name: "col", Data: col}}); err != nil {
+			return fmt.Errorf("decode of a %s block into %s column: %w", t2.Name, []string{"the used", "a fresh"}[i], err)
+		}
+		cw, err := reg.WrapAs(col, t2, h.e.Label)
+		if err != nil {
+			return fmt.Errorf("harness: %v", err)
+		}
+		rows[i], types[i] = rowsCanon(cw), col.Type()
+	}
+	if types[0] != types[1] || !refcol.Equal(anyList(rows[0]), anyList(rows[1])) {
+		return fmt.Errorf("a %s block decoded into the used column gives %s (column type %s); into a fresh column %s (column type %s)", t2.Name, refcol.Show(anyList(rows[0])), types[0], refcol.Show(anyList(rows[1])), types[1])
+	}
+	if !refcol.Equal(anyList(rows[1]), anyList(h.dec[0])) {
+		return fmt.Errorf("a %s block decoded into a fresh column gives %s, the block carries %s", t2.Name, refcol.Show(anyList(rows[1])), refcol.Show(anyList(h.dec[0])))
+	}
+	if err := h.col.C.(proto.Inferable).Infer(proto.ColumnType(h.col.T.Name)); err != nil {
+		return err
+	}
+	h.col.C.Reset()
+	h.model = nil
+	return nil
+}
+
 func ops16(h *hist16) []op16 {
 	ops := []op16{
 		{"append0", func(h *hist16) error { h.appendIdx(0); return nil }},
@@ -183,6 +218,12 @@ func ops16(h *hist16) []op16 {
 	}
 	if _, ok := h.col.C.(proto.Inferable); ok {
 		ops = append(ops, op16{"infer-own-type", func(h *hist16) error { return h.col.C.(proto.Inferable).Infer(h.col.C.Type()) }})
+	}
+	if strings.Contains(h.e.Label, "DateTime64(3)") && !strings.Contains(h.e.Label, "LowCardinality") {
+		// a block of a parameter-only sibling type (another precision) into the used column: it
+		// must end up exactly as a fresh column does after the same block (values read as the
+		// block's type, reported type); then back to the own type, empty
+		ops = append(ops, op16{"decode2-other-precision", func(h *hist16) error { return h.decodeSibling("DateTime64(3)", "DateTime64(6)") }})
 	}
 	if h.e.Label == "Enum8('a'=1,'b'=2,'c'=-3)" {
 		// the name-based enum column adopts another definition of the same names (the column
@@ -355,7 +396,7 @@ func c16Big(c *vk.Ctx) {
 // C16 — reused columns carry nothing over: reset+decode and re-encode are exact.
 func C16(c *vk.Ctx) {
 	defer c16Big(c)
-	c.Rule("explicit-state breadth-first search over operation histories on the real column object, for each of 21 compositions (thorough: every registry composition of depth <= 1): alphabet {Append of 3 different values, Reset, EncodeBlock (Prepare + state + data), WriteBlock+Flush, DecodeBlock of 0 / 2 / 3 rows holding other values (other dictionary; for LowCardinality also with keys written wider than necessary, which is valid on the wire), truncated DecodeBlock followed by Reset, Prepare where the column has it, Infer of its own type where inferable, and for the name-based enum column Infer of another definition of the same names (the model's numbers follow the definition in force)}; histories to depth 5 (thorough 6), a history is expanded only when the full-object fingerprint (every field, exported or not) together with the model state is new; successors are built by replaying the path on a fresh object. Oracle after every history: Rows()/Row(i) equal the list model, a fresh EncodeBlock decoded by the reference model equals the list model, and encoding twice gives the same bytes. Plus, for String / Array(String) / LowCardinality(String) / Nullable(String): all histories of <= 3 (thorough 4) operations over {append small, Reset, decode small block, decode a block whose last row has 1 MiB + 11 bytes, decode a block whose only row has, encode} with the same oracle. states = distinct (object fingerprint, model) pairs; transitions = operations executed.")
+	c.Rule("explicit-state breadth-first search over operation histories on the real column object, for each of 21 compositions (thorough: every registry composition of depth <= 1): alphabet {Append of 3 different values, Reset, EncodeBlock (Prepare + state + data), WriteBlock+Flush, DecodeBlock of 0 / 2 / 3 rows holding other values (other dictionary; for LowCardinality also with keys written wider than necessary, which is valid on the wire), DecodeBlock of a parameter-only sibling type (DateTime64 of another precision; the used column must end up as a fresh one does) and back, truncated DecodeBlock followed by Reset, Prepare where the column has it, Infer of its own type where inferable, and for the name-based enum column Infer of another definition of the same names (the model's numbers follow the definition in force)}; histories to depth 5 (thorough 6), a history is expanded only when the full-object fingerprint (every field, exported or not) together with the model state is new; successors are built by replaying the path on a fresh object. Oracle after every history: Rows()/Row(i) equal the list model, a fresh EncodeBlock decoded by the reference model equals the list model, and encoding twice gives the same bytes. Plus, for String / Array(String) / LowCardinality(String) / Nullable(String): all histories of <= 3 (thorough 4) operations over {append small, Reset, decode small block, decode a block whose last row has 1 MiB + 11 bytes, decode a block whose only row has, encode} with the same oracle. states = distinct (object fingerprint, model) pairs; transitions = operations executed.")
 	depth := 5
 	if !c.Quick() {
 		depth = 6
